@@ -445,7 +445,7 @@ func vplRun(e *vplEnv, c vplCase) map[string]interface{} {
 	e.local.take()
 	e.remote.take()
 	full := "/" + string(sd.FullName()) + "/" + c.M.Method
-	ctx, cancel := context.WithTimeout(context.Background(), 5*time.Second)
+	ctx, cancel := context.WithTimeout(context.Background(), 20*time.Second) // generous: slow is not a verdict
 	defer cancel()
 	md := metadata.MD{}
 	if c.Bypass {
@@ -493,7 +493,7 @@ func vplRun(e *vplEnv, c vplCase) map[string]interface{} {
 			if early == nil {
 				select {
 				case early = <-got:
-				case <-time.After(3 * time.Second):
+				case <-time.After(10 * time.Second):
 				}
 			}
 			err = early
@@ -525,7 +525,11 @@ func vplRun(e *vplEnv, c vplCase) map[string]interface{} {
 	// a successful call has been (or, for a stream through two proxies, is being) forwarded: wait for the serving cluster
 	// to see it, bounded
 	if rec["status"] == "OK" {
-		dl := time.Now().Add(2 * time.Second)
+		dl := time.Now().Add(10 * time.Second)
+		if c.Transport == "mux" && c.M.Stream {
+			// a refused stream looks like a clean end through the peer proxy: nothing will arrive, do not wait long for it
+			dl = time.Now().Add(2 * time.Second)
+		}
 		for time.Now().Before(dl) {
 			serving.mu.Lock()
 			n := len(serving.calls)
